@@ -87,21 +87,57 @@ def is_cast(prog, f, v):
     return False
 
 
+def array_params(prog, f, depth=0):
+    """parameters the function (or a validation helper it hands them to) checks to be numpy arrays"""
+    out = set()
+    for n in ast.walk(f.node):
+        if isinstance(n, ast.Call) and norm(n.func) == 'isinstance' and len(n.args) == 2 and isinstance(n.args[0], ast.Name) \
+                and 'ndarray' in norm(n.args[1]) and n.args[0].id in f.params:
+            out.add(n.args[0].id)
+        elif isinstance(n, ast.Call) and depth < 2 and isinstance(n.func, (ast.Name, ast.Attribute)):
+            r = prog.resolve(f.mod, n.func)
+            if r and r[0] == 'func':
+                sub = array_params(prog, r[1], depth + 1)
+                for i, a in enumerate(n.args):
+                    if isinstance(a, ast.Name) and a.id in f.params and i < len(r[1].params) and r[1].params[i] in sub:
+                        out.add(a.id)
+    return out
+
+
 def d2(ctx, prog):
     n_sinks = 0
-    for modname in MODS[:2]:
+    for modname in MODS[:3]:
         for f in prog.funcs_in(modname):
-            if f.parent is not None:
+            if f.parent is not None or prog.numba_kind(f)[0]:
                 continue
-            raw = {p for p in f.params if p not in ('window_size', 'axis', 'self')}
+            raw = array_params(prog, f)
+            arrays = set(raw)
             for st in astutil.stmts_of(f.node):
                 # sinks in this statement are judged against the state *before* it
                 for n in ast.walk(st):
+                    # differences of raw values (unsigned integers wrap on every decrease; the sign of the result is then wrong)
+                    dn = None
+                    if isinstance(n, ast.Call) and norm(n.func).split('.')[-1] in ('diff', 'ediff1d', 'gradient') and n.args \
+                            and isinstance(n.args[0], ast.Name) and n.args[0].id in arrays:
+                        dn = n.args[0].id
+                    elif isinstance(n, ast.BinOp) and isinstance(n.op, ast.Sub) and all(
+                            (isinstance(o, ast.Subscript) and isinstance(o.value, ast.Name) and o.value.id in arrays) or
+                            (isinstance(o, ast.Name) and o.id in arrays) for o in (n.left, n.right)):
+                        o = n.left
+                        dn = (o.value.id if isinstance(o, ast.Subscript) else o.id)
+                    if dn is not None:
+                        n_sinks += 1
+                        key = f'{f.key}::{norm(n)[:60]}'
+                        if dn in raw:
+                            ctx.fail('C19-D2', key, f'`{norm(n)[:60]}` takes differences of the raw parameter `{dn}` in its own dtype: unsigned integers wrap on every '
+                                                    f'decrease (and narrow signed ones on large swings), so the sign of the slope is wrong', f.where(n))
+                        else:
+                            ctx.ok('C19-D2', key, 'difference taken after the float64 cast', f.where(n))
                     if isinstance(n, ast.BinOp) and isinstance(n.op, (ast.Pow, ast.Mult)):
-                        ops = [o for o in (n.left, n.right) if isinstance(o, ast.Name) and o.id in f.params]
+                        ops = [o for o in (n.left, n.right) if isinstance(o, ast.Name) and o.id in arrays]
                         if not ops:
                             continue
-                        if isinstance(n.op, ast.Mult) and not all(isinstance(o, ast.Name) and o.id in f.params for o in (n.left, n.right)):
+                        if isinstance(n.op, ast.Mult) and not all(isinstance(o, ast.Name) and o.id in arrays for o in (n.left, n.right)):
                             continue       # scalar * array etc.: promoted by the other operand
                         n_sinks += 1
                         bad = [o.id for o in ops if o.id in raw]
